@@ -135,7 +135,7 @@ func genShape(r *engine.RNG, kind string, c06 bool) *engine.Shape {
 	return sh
 }
 
-var byteFaults = []string{"bitflip", "bitflip", "rewrite", "mapping_slack", "mapping_slack", "cert_slack", "cert_slack", "peer_slack", "element_smuggle", "element_smuggle", "type_confusion", "type_confusion", "flag_downgrade", "after_sig", "sig_swap", "key_subst", "replay", "revocation_key_forgery"}
+var byteFaults = []string{"bitflip", "bitflip", "rewrite", "mapping_slack", "mapping_slack", "cert_slack", "cert_slack", "peer_slack", "element_smuggle", "element_smuggle", "element_swap", "element_swap", "type_confusion", "type_confusion", "flag_downgrade", "after_sig", "sig_swap", "key_subst", "replay", "revocation_key_forgery"}
 var shapeFaults = []string{"offline_forgery", "offline_forgery", "offline_transplant", "store_confusion", "offline_extension", "offline_extension"}
 
 func (World) Generate(r *engine.RNG, tier string) *engine.Script {
@@ -170,12 +170,17 @@ func (World) Generate(r *engine.RNG, tier string) *engine.Script {
 			}
 		}
 		op.Actor = fmt.Sprintf("pub%d", op.Shape.IdentSeed)
+		if prop != "C06" && kind != "mls" && r.Chance(1, 3) {
+			// this publisher runs the library: the message is what the library's own
+			// signing constructor and serialiser produce for the same content
+			op.S = append(op.S, "library-made")
+		}
 		s.Ops = append(s.Ops, op)
 		if r.Intn(3) < faultRate {
 			if r.Chance(1, 2) {
 				// the floodfill has already seen (and verified) the honest original
 				// when the tampered copy arrives
-				s.Ops[len(s.Ops)-1].S = []string{"honest-first"}
+				s.Ops[len(s.Ops)-1].S = append(s.Ops[len(s.Ops)-1].S, "honest-first")
 			}
 			for k, nf := 0, r.PickInt(1, 1, 1, 2, 3); k < nf; k++ {
 				f := engine.Fault{At: int64(i)}
@@ -411,6 +416,116 @@ func applyByteFault(m *message, f *engine.Fault, recorded []*message) bool {
 			nf.SigStart += n
 		}
 		m.frame = &nf
+		return true
+	case "element_swap":
+		// Two neighbouring elements of a list change places: option pairs inside
+		// any mapping, leases, MetaLeaseSet entries, LeaseSet2 keys, router
+		// addresses. Same length, same multiset of bytes, nothing malformed — but
+		// not what was signed. A verifier that normalises the order before it
+		// looks at the signature accepts it.
+		type span struct{ a, b, c int } // [a,b) and [b,c) swap
+		var cands []span
+		add := func(bounds []int) {
+			for i := 0; i+2 < len(bounds); i++ {
+				if bounds[i+2] <= len(raw) && !bytes.Equal(raw[bounds[i]:bounds[i+1]], raw[bounds[i+1]:bounds[i+2]]) {
+					cands = append(cands, span{bounds[i], bounds[i+1], bounds[i+2]})
+				}
+			}
+		}
+		// pairs inside mapping bodies
+		for _, fl := range fr.Fields {
+			if fl.Class != refmodel.ClsOptions && fl.Class != refmodel.ClsEntryProps {
+				continue
+			}
+			body := fl
+			start := body.Start
+			if strings.HasSuffix(fl.Name, "_props") || fl.Class == refmodel.ClsEntryProps {
+				start += 2 // the entry properties field holds size + body
+			} else if !strings.HasSuffix(fl.Name, "opt_body") {
+				continue
+			}
+			if body.End > len(raw) || start >= body.End {
+				continue
+			}
+			bounds := []int{start}
+			p := start
+			for p < body.End {
+				kl := int(raw[p])
+				q := p + 1 + kl + 1
+				if q >= body.End {
+					break
+				}
+				vl := int(raw[q])
+				e := q + 1 + vl + 1
+				if e > body.End {
+					break
+				}
+				bounds = append(bounds, e)
+				p = e
+			}
+			add(bounds)
+		}
+		// whole elements, grouped by the number in their field name
+		group := func(pfx string) {
+			starts := map[int]int{}
+			ends := map[int]int{}
+			for _, fl := range fr.Fields {
+				if !strings.HasPrefix(fl.Name, pfx) {
+					continue
+				}
+				num, rest := 0, fl.Name[len(pfx):]
+				k := 0
+				for k < len(rest) && rest[k] >= '0' && rest[k] <= '9' {
+					num = num*10 + int(rest[k]-'0')
+					k++
+				}
+				if k == 0 {
+					continue
+				}
+				if _, ok := starts[num]; !ok || fl.Start < starts[num] {
+					starts[num] = fl.Start
+				}
+				if fl.End > ends[num] {
+					ends[num] = fl.End
+				}
+			}
+			var bounds []int
+			for i := 0; ; i++ {
+				st, ok := starts[i]
+				if !ok {
+					break
+				}
+				if i == 0 {
+					bounds = append(bounds, st)
+				} else if st != bounds[len(bounds)-1] {
+					return // not contiguous: leave it
+				}
+				bounds = append(bounds, ends[i])
+			}
+			add(bounds)
+		}
+		group("lease")
+		group("entry")
+		group("addr")
+		for i := 0; i < 16; i++ { // LeaseSet2 keys: keytypeN keylenN keyN
+			var b []int
+			for j := i; j <= i+2; j++ {
+				for _, fl := range fr.Fields {
+					if fl.Name == fmt.Sprintf("keytype%d", j) {
+						b = append(b, fl.Start)
+					}
+				}
+			}
+			if len(b) == 3 {
+				add(b)
+			}
+		}
+		if len(cands) == 0 {
+			return false
+		}
+		sp := cands[int(f.N[0])%len(cands)]
+		swapped := append(append([]byte(nil), raw[sp.b:sp.c]...), raw[sp.a:sp.b]...)
+		copy(raw[sp.a:sp.c], swapped)
 		return true
 	case "element_smuggle":
 		// A count field is raised by one and one well-framed element is inserted
@@ -719,6 +834,16 @@ func deliver(o *engine.Outcome, op *engine.Op, faults []*engine.Fault, recorded 
 		return nil, false, refmodel.RawVerdict{}, false
 	}
 	m.frame, m.raw = fr, append([]byte(nil), fr.Bytes...)
+	if has(op.S, "library-made") && len(m.faults) == 0 {
+		// same content, but signed and serialised by the library; the reference
+		// frame serves as the field map when the layout is the same
+		var b []byte
+		var ok bool
+		if !o.Guard("construct "+sh.Kind, func() { _, b, ok = ConstructWithBytes(sh) }) && ok && len(b) == len(fr.Bytes) {
+			m.raw = append([]byte(nil), b...)
+			m.faults = append(m.faults, "library-made")
+		}
+	}
 	if fr.Ident != nil {
 		m.idSig, m.idKey = fr.Ident.Sig, fr.Ident.Key.Pub
 	}
@@ -799,7 +924,7 @@ func executeC05(s *engine.Script, o *engine.Outcome) {
 			continue
 		}
 		faults := byTag[op.N[0]]
-		if len(faults) > 0 && len(op.S) > 0 && op.S[0] == "honest-first" {
+		if len(faults) > 0 && has(op.S, "honest-first") {
 			deliver(o, op, nil, recorded, false)
 			o.Fault("honest-original-verified-first")
 		}
@@ -811,8 +936,11 @@ func executeC05(s *engine.Script, o *engine.Outcome) {
 		if ref.Offline {
 			sigLabel += fmt.Sprintf("+transient%d", ref.Transient)
 		}
-		if len(m.faults) == 0 {
+		if len(m.faults) == 0 || len(m.faults) == 1 && m.faults[0] == "library-made" {
 			o.Probe("honest_messages")
+			if len(m.faults) == 1 {
+				o.Fault("message-made-by-the-library")
+			}
 			if accepted {
 				o.Probe("honest_accepted_by_library")
 				o.Probe("honest_accepted_by_library:" + m.kind + ":" + sigLabel)
@@ -855,6 +983,15 @@ func executeC05(s *engine.Script, o *engine.Outcome) {
 		o.FP.Step("msg", i, m.kind, len(m.raw), parsed, accepted, ref.OK)
 		recorded = append(recorded, m)
 	}
+}
+
+func has(l []string, x string) bool {
+	for _, y := range l {
+		if y == x {
+			return true
+		}
+	}
+	return false
 }
 
 func uniq(s []string) []string {
